@@ -1,6 +1,7 @@
 package rules
 
 import (
+	"sort"
 	"fmt"
 	"go/ast"
 	"go/token"
@@ -67,86 +68,166 @@ func runC12(c *Ctx) {
 	censusCell := loopCell(census)
 
 	nAdj := 0
-	ast.Inspect(body, func(n ast.Node) bool {
-		inc, ok := n.(*ast.IncDecStmt)
-		if !ok {
-			return true
-		}
-		var field string
-		for _, f := range []string{"CurrentReplicas", "UpdatedReplicas", "Replicas", "ReadyReplicas"} {
-			if isStatusField(info, inc.X, f) {
-				field = f
+	// adjustments: status.F++ / -- / += d / -= d, in the reconcile function or in a helper expanded into it; in a helper
+	// each occurrence (one per call of the helper) is judged on its own facts, anchored at the call in the function's body
+	type adjustment struct {
+		stmt  ast.Node   // the adjusting statement
+		x     ast.Expr   // status.F
+		field string
+		body  *ast.BlockStmt // the body it stands in
+		at    ast.Node   // anchor in the reconcile function's own body (the statement itself, or the call of the helper)
+		st    gf.State
+		op    string
+		calls []*ast.CallExpr // chain of expanded calls (outermost first) when the statement stands in a helper
+	}
+	var adjs []adjustment
+	for _, bd := range fn.Bodies() {
+		bd := bd
+		ast.Inspect(bd, func(n ast.Node) bool {
+			var x ast.Expr
+			var tok token.Token
+			var delta ast.Expr
+			switch y := n.(type) {
+			case *ast.FuncLit:
+				return false
+			case *ast.IncDecStmt:
+				x, tok = y.X, y.Tok
+			case *ast.AssignStmt:
+				if len(y.Lhs) == 1 && len(y.Rhs) == 1 && (y.Tok == token.ADD_ASSIGN || y.Tok == token.SUB_ASSIGN) {
+					x, tok, delta = y.Lhs[0], y.Tok, y.Rhs[0]
+				}
 			}
-		}
-		if field == "" {
+			if x == nil {
+				return true
+			}
+			var field string
+			for _, f := range []string{"CurrentReplicas", "UpdatedReplicas", "Replicas", "ReadyReplicas"} {
+				if isStatusField(info, x, f) {
+					field = f
+				}
+			}
+			if field == "" {
+				return true
+			}
+			for _, ins := range an.Instances(n) {
+				at := n
+				if len(ins.Calls) > 0 {
+					if stt := stmtOf(body, ins.Calls[0]); stt != nil {
+						at = stt
+					}
+				}
+				op := ""
+				switch tok {
+				case token.INC:
+					op = "++"
+				case token.DEC:
+					op = "--"
+				default:
+					// the sign of the step from the facts of this occurrence
+					dt := fn.Term(delta)
+					pos, _ := ins.State.Implies(gf.FLt(gf.ConstInt(0), dt))
+					neg, _ := ins.State.Implies(gf.FLt(dt, gf.ConstInt(0)))
+					switch {
+					case pos && tok == token.ADD_ASSIGN, neg && tok == token.SUB_ASSIGN:
+						op = "++"
+					case neg && tok == token.ADD_ASSIGN, pos && tok == token.SUB_ASSIGN:
+						op = "--"
+					}
+				}
+				adjs = append(adjs, adjustment{n, x, field, bd, at, ins.State, op, ins.Calls})
+			}
 			return true
-		}
+		})
+	}
+	sort.SliceStable(adjs, func(i, j int) bool { return adjs[i].at.Pos() < adjs[j].at.Pos() })
+	for _, ad := range adjs {
+		field, op, st, at := ad.field, ad.op, ad.st, ad.at
 		nAdj++
-		op := "++"
-		if inc.Tok == token.DEC {
-			op = "--"
-		}
 		where := "after a pod write"
-		if contains(census, inc) {
+		if contains(census, at) {
 			where = "census"
 		}
 		name := fmt.Sprintf("%s: status.%s%s [%s, #%d]", r.FI.Obj.Name(), field, op, where, nAdj)
-		st := an.StateBefore(inc)
+		if op == "" {
+			c.Bad("C12.1-counter-matches-revision", name, ad.stmt.Pos(), "the direction of this adjustment is not determined by the facts (neither +1 nor -1)")
+			continue
+		}
 		switch field {
 		case "CurrentReplicas", "UpdatedReplicas":
-			rev := r.CurRev
+			revT := c.WantTerm(fn, body.Lbrace+1, "$1.Name", r.CurRev)
 			if field == "UpdatedReplicas" {
-				rev = r.UpdRev
+				revT = c.WantTerm(fn, body.Lbrace+1, "$1.Name", r.UpdRev)
 			}
 			okAny := false
 			var tried string
 			var cands []ast.Expr
 			seen := map[string]bool{}
-			for _, cd := range allCands {
-				if cd.loop == innermostLoop(body, inc) && !seen[types.ExprString(cd.e)] {
-					seen[types.ExprString(cd.e)] = true
-					cands = append(cands, cd.e)
+			for _, bd2 := range fn.Bodies() {
+				if bd2 != ad.body {
+					continue
+				}
+				ast.Inspect(bd2, func(m ast.Node) bool {
+					if call, ok := m.(*ast.CallExpr); ok && gf.StaticCallee(info, call) == r.GetPodRevision && len(call.Args) == 1 {
+						if innermostLoop(bd2, call) == innermostLoop(bd2, ad.stmt) && !seen[types.ExprString(call.Args[0])] {
+							seen[types.ExprString(call.Args[0])] = true
+							cands = append(cands, call.Args[0])
+						}
+					}
+					return true
+				})
+			}
+			// in a helper: also the pods the helper was handed (its parameter may already have been replaced by the argument in the facts)
+			argCand := map[ast.Expr]bool{}
+			if len(ad.calls) > 0 {
+				for _, a := range ad.calls[0].Args {
+					if types.TypeString(info.TypeOf(a), nil) == "*k8s.io/api/core/v1.Pod" {
+						cands = append(cands, a)
+						argCand[a] = true
+					}
 				}
 			}
 			for _, p := range cands {
-				f := c.Want(fn, inc.Pos(), "getPodRevision($1) == $2.Name", p, rev)
+				where := ad.stmt
+				if argCand[p] {
+					where = ad.calls[0]
+				}
+				f := c.revisionOf(fn, p, revT, where)
 				if good, _ := st.Implies(f); good {
 					okAny = true
-					c.OK("C12.1-counter-matches-revision", name, inc.Pos(), "facts imply "+f.String())
+					c.OK("C12.1-counter-matches-revision", name, ad.stmt.Pos(), "facts imply "+f.String())
 					break
 				}
 				tried += types.ExprString(p) + " "
 			}
 			if !okAny {
 				_, wit := st.Implies(gf.False)
-				c.Bad("C12.1-counter-matches-revision", name, inc.Pos(), fmt.Sprintf("status.%s is adjusted without the fact that the pod concerned carries the %s revision (tried pods: %s); facts on one path: %s", field, map[string]string{"CurrentReplicas": "current", "UpdatedReplicas": "update"}[field], tried, clip(wit, 500)))
+				c.Bad("C12.1-counter-matches-revision", name, ad.stmt.Pos(), fmt.Sprintf("status.%s is adjusted without the fact that the pod concerned carries the %s revision (tried pods: %s); facts on one path: %s", field, map[string]string{"CurrentReplicas": "current", "UpdatedReplicas": "update"}[field], tried, clip(wit, 500)))
 			}
-			if contains(census, inc) && censusCell != nil {
-				c.Implies(st, c.Want(fn, inc.Pos(), `$1.Status.Phase != "" && $1.DeletionTimestamp == nil`, censusCell), "C12.2-census-live-pods-only", name, inc.Pos())
+			if contains(census, at) && censusCell != nil {
+				c.Implies(st, c.Want(fn, census.Body.Pos(), `$1.Status.Phase != "" && $1.DeletionTimestamp == nil`, censusCell), "C12.2-census-live-pods-only", name, ad.stmt.Pos())
 			}
 		case "ReadyReplicas":
-			if contains(census, inc) && censusCell != nil {
-				c.Implies(st, c.podReady(fn, inc.Pos(), censusCell), "C12.2-census-ready", name, inc.Pos())
+			if contains(census, at) && censusCell != nil {
+				c.Implies(st, c.podReady(fn, census.Body.Pos(), censusCell), "C12.2-census-ready", name, ad.stmt.Pos())
 			} else {
-				c.Bad("C12.2-census-ready", name, inc.Pos(), "ReadyReplicas is adjusted outside the census")
+				c.Bad("C12.2-census-ready", name, ad.stmt.Pos(), "ReadyReplicas is adjusted outside the census")
 			}
 		case "Replicas":
-			if contains(census, inc) {
+			if contains(census, at) {
 				direct := false
 				for _, s := range census.Body.List {
-					if s == ast.Stmt(inc) {
+					if ast.Node(s) == at {
 						direct = true
 					}
 				}
-				c.Check(direct && inc.Tok == token.INC, "C12.2-census-total", name, inc.Pos(), "every observed pod is counted, unconditionally", "the total is not counted unconditionally per observed pod")
+				c.Check(direct && op == "++", "C12.2-census-total", name, ad.stmt.Pos(), "every observed pod is counted, unconditionally", "the total is not counted unconditionally per observed pod")
 			}
 		}
 		// adjustments outside the census follow a successful pod write
-		if !contains(census, inc) {
-			c.afterSuccessfulWrite(r, inc, field, op, name)
+		if !contains(census, at) {
+			c.afterSuccessfulWrite(r, at, field, op, name)
 		}
-		return true
-	})
+	}
 	c.Floor("C12.1-counter-adjustments", nAdj, 13)
 
 	// C12.3 assignment whitelist over the controller package
@@ -279,9 +360,18 @@ func (c *Ctx) statusOnlyAfterCompletePass(r *Reconcile) {
 	c.Floor("C12.6-reconcile-call-sites", n, 1)
 }
 
+// revisionOf builds getPodRevision(p) == rev as the canoniser would for the source expression.
+func (c *Ctx) revisionOf(fn *gf.Fn, p ast.Expr, rev *gf.Term, at ast.Node) *gf.Formula {
+	lhs := c.TryWantTerm(fn, at.Pos(), "getPodRevision($1)", p)
+	if lhs == nil || rev == nil {
+		return gf.False
+	}
+	return gf.FEq(lhs, rev)
+}
+
 // afterSuccessfulWrite: the adjustment is unreachable on the error edge of the
 // nearest preceding pod write in the same loop body.
-func (c *Ctx) afterSuccessfulWrite(r *Reconcile, inc *ast.IncDecStmt, field, op, name string) {
+func (c *Ctx) afterSuccessfulWrite(r *Reconcile, inc ast.Node, field, op, name string) {
 	fn, an := r.Fn, r.An
 	var prev *ast.CallExpr
 	for _, w := range c.podWrites(r) {
@@ -332,7 +422,7 @@ func isIfInit(body *ast.BlockStmt, as *ast.AssignStmt) bool {
 }
 
 // nextReturnReturnsErr: every return reachable right after inc returns the error variable defined by as.
-func (c *Ctx) nextReturnReturnsErr(r *Reconcile, inc *ast.IncDecStmt, as *ast.AssignStmt) bool {
+func (c *Ctx) nextReturnReturnsErr(r *Reconcile, inc ast.Node, as *ast.AssignStmt) bool {
 	fn, an := r.Fn, r.An
 	errID, _ := as.Lhs[len(as.Lhs)-1].(*ast.Ident)
 	if errID == nil {
